@@ -58,7 +58,10 @@ Definition new_objects (newdata : list (string * Z)) (newmans : list (string * l
    REGENERATED from the source on every run (the path guards it applies to every file; Proofs/GCAcceptProofs.v derives
    "under data/" from it, for every normpath).  The model's store identifies a file with the literal string of its key --
    there is no second spelling of a key ("data//f", "data/./f" are other keys, and existence below is literal) -- so
-   posixpath.normpath, which only tells such spellings apart, is instantiated by the identity. *)
+   posixpath.normpath, which only tells such spellings apart, is instantiated by the identity.  This LITERAL machine serves the
+   content theorems of C09 (Model/GCView.v); C05's history theorem is stated over Model/GCHistFS.v, where normpath and the backend's
+   key function are abstract and the canonical-spelling half of the guard is used (every step there is a step of this machine or a
+   refused commit: Proofs/GCHistFSProofs.v hstep_fs_refines). *)
 Definition literal_normpath (s : string) : string := s.
 Definition accepts (e : string) : bool := append_accepts_path literal_normpath e.
 
